@@ -22,6 +22,7 @@ var registry = map[string]checkFn{
 	"C01": runC01,
 	"C02": runC02,
 	"C03": runC03,
+	"C04": runC04,
 	"C05": runC05,
 	"C07": runC07,
 	"C06": runC06,
